@@ -520,12 +520,15 @@ int main(int argc, char** argv)
     else if (en->name == "nc.seqFromString") d = dictSequences();
     else if (en->name == "iv.readDescription") d = dictIntervals();
     else if (en->kind == K_NUMBER)
+    {
+      for (const auto& v : longDigitNumbers()) d.push_back(v);
       for (const auto& v : extremeValues())
       {
         d.push_back(v);
         d.push_back("-" + v);
         d.push_back(v + "e" + v);
       }
+    }
     for (const auto& s : d)
       for (int v = 0; v < en->variants; ++v) one(s, v);
   }
